@@ -96,6 +96,7 @@ def handle (j : Json) : Except String Json := do
        ("levels", if cfg.algo == .roundRobin then
             jList (fun (x : Session Float) => Json.arr #[jS x.session, jFs (rrLevels infra period cfg.inc x)]) o.order
           else Json.null),
+       ("queue_left", jList (fun (x : Session Float) => jS x.session) o.queueLeft),
        ("bounds", jList (fun (p : String × Float) => Json.arr #[jS p.1, jF p.2]) rd.bounds)]
     match o.result with
     | .error e => outs := outs.push (Json.mkObj (("err", jS (errName e)) :: common))
